@@ -4,6 +4,7 @@ import (
 	"fmt"
 	"go/token"
 	"go/types"
+	"strings"
 
 	"golang.org/x/tools/go/ssa"
 )
@@ -160,41 +161,34 @@ func runC07(c *Ctx) {
 
 	// ---- R07.3
 	{
-		n := 0
-		for _, fn := range p.Funcs {
-			if pkgOf(fn) != p.Root.Pkg {
-				continue
-			}
-			used := map[string]ssa.Instruction{}
-			allInstrs(fn, func(in ssa.Instruction) {
-				if ci, ok := in.(*ssa.Call); ok {
-					switch calleeName(ci) {
-					case "(*container/list.List).PushBack":
-						used["PushBack"] = in
-					case "(*container/list.List).PushFront":
-						used["PushFront"] = in
-					case "(*container/list.List).Front":
-						used["Front"] = in
-					case "(*container/list.List).Back":
-						used["Back"] = in
-					}
+		used := map[string]ssa.Instruction{}
+		c.bufInstrs(func(in ssa.Instruction) {
+			if ci, ok := in.(*ssa.Call); ok {
+				switch calleeName(ci) {
+				case "(*container/list.List).PushBack":
+					used["PushBack"] = in
+				case "(*container/list.List).PushFront":
+					used["PushFront"] = in
+				case "(*container/list.List).Front":
+					used["Front"] = in
+				case "(*container/list.List).Back":
+					used["Back"] = in
 				}
-			})
-			if len(used) == 0 {
-				continue
 			}
-			n++
-			construct := fmt.Sprintf("%s: buffer discipline", fname(fn))
+		})
+		if len(used) == 0 {
+			c.und("R07.3", "client buffer", "-", "no container/list buffer found")
+		} else {
+			construct := fmt.Sprintf("%s: buffer discipline", fname(c.bufferingGoroutine()))
 			fifo := (used["PushBack"] != nil && used["Front"] != nil && used["PushFront"] == nil && used["Back"] == nil) ||
 				(used["PushFront"] != nil && used["Back"] != nil && used["PushBack"] == nil && used["Front"] == nil)
 			var at ssa.Instruction
-			for _, v := range used {
-				at = v
+			for _, k := range []string{"PushBack", "PushFront", "Front", "Back"} {
+				if used[k] != nil {
+					at = used[k]
+				}
 			}
 			c.check(fifo, "R07.3", construct, c.ipos(at), "push and pop at opposite ends", "values are pushed and popped at the same end of the buffer (LIFO): whenever more than one value is buffered the caller receives them out of order")
-		}
-		if n == 0 {
-			c.und("R07.3", "client buffer", "-", "no container/list buffer found")
 		}
 	}
 
@@ -262,28 +256,7 @@ func runC07(c *Ctx) {
 // decouplingRule: R07.4
 func (c *Ctx) decouplingRule(rule string) {
 	p := c.P
-	// the buffering goroutine: root function calling reflect.Select and a container/list method
-	var buf *ssa.Function
-	for _, fn := range p.Funcs {
-		if pkgOf(fn) != p.Root.Pkg {
-			continue
-		}
-		sel, lst := false, false
-		allInstrs(fn, func(in ssa.Instruction) {
-			if ci, ok := in.(*ssa.Call); ok {
-				n := calleeName(ci)
-				if n == "reflect.Select" {
-					sel = true
-				}
-				if len(n) > 22 && n[:22] == "(*container/list.List)" {
-					lst = true
-				}
-			}
-		})
-		if sel && lst {
-			buf = fn
-		}
-	}
+	buf := c.bufferingGoroutine()
 	if !c.need(rule, "client buffering goroutine", buf != nil) {
 		return
 	}
@@ -291,8 +264,8 @@ func (c *Ctx) decouplingRule(rule string) {
 	// intake channel: captured variable of type chan reflect.Value
 	okAll := true
 	hasIntake := false
-	var intakeVar ssa.Value
-	allInstrs(buf, func(in ssa.Instruction) {
+	var intakeVar interface{}
+	c.bufInstrs(func(in ssa.Instruction) {
 		switch x := in.(type) {
 		case *ssa.Call:
 			if calleeName(x) == "reflect.ValueOf" {
@@ -319,7 +292,7 @@ func (c *Ctx) decouplingRule(rule string) {
 						c.bad(rule, construct, c.ipos(x), "the intake case is replaced by a nil channel under some condition (e.g. while the buffer is long): once the intake is not drained, the sink blocks inside the single frame executor and every call and stream on the connection stalls behind one slow consumer")
 					}
 					if ld, ok := a.(*ssa.UnOp); ok && ld.Op == token.MUL {
-						intakeVar = c.P.canonVar(ld.X)
+						intakeVar = c.locKey(ld.X)
 					}
 				}
 			}
@@ -348,7 +321,7 @@ func (c *Ctx) decouplingRule(rule string) {
 	// the intake variable is given up (set to nil) only once the intake was closed (receive reported !ok)
 	if intakeVar != nil {
 		var selOK ssa.Value
-		allInstrs(buf, func(in ssa.Instruction) {
+		c.bufInstrs(func(in ssa.Instruction) {
 			if ci, ok := in.(*ssa.Call); ok && calleeName(ci) == "reflect.Select" {
 				for _, ref := range *ci.Referrers() {
 					if ex, ok := ref.(*ssa.Extract); ok && ex.Index == 2 {
@@ -357,9 +330,9 @@ func (c *Ctx) decouplingRule(rule string) {
 				}
 			}
 		})
-		allInstrs(buf, func(in ssa.Instruction) {
+		c.bufInstrs(func(in ssa.Instruction) {
 			st, ok := in.(*ssa.Store)
-			if !ok || c.P.canonVar(st.Addr) != intakeVar || !isNilConst(st.Val) {
+			if !ok || c.locKey(st.Addr) != intakeVar || !isNilConst(st.Val) {
 				return
 			}
 			if selOK == nil || !condKnown(st.Block(), selOK, false) {
@@ -371,27 +344,20 @@ func (c *Ctx) decouplingRule(rule string) {
 	if okAll {
 		c.ok(rule, construct, p.pos(buf.Pos()), "intake case built unconditionally and never rewritten")
 	}
-	// the sink: sibling closure sending into the intake inside a select with ctx.Done()
-	par := buf.Parent()
-	if par == nil {
-		return
-	}
+	// the sink: whatever function sends into the intake must do so inside a select with ctx.Done()
 	n := 0
-	for _, sib := range withAnon(par) {
+	for _, sib := range c.sinkFuncs() {
+		sib := sib
 		allInstrs(sib, func(in ssa.Instruction) {
-			isIntake := func(v ssa.Value) bool {
-				ch, ok := v.Type().Underlying().(*types.Chan)
-				return ok && isNamed(ch.Elem(), "reflect", "Value")
-			}
 			switch x := in.(type) {
 			case *ssa.Send:
-				if isIntake(x.Chan) {
+				if isIntakeChan(x.Chan) {
 					n++
 					c.bad(rule, fmt.Sprintf("%s: hand-over into the intake", fname(sib)), c.ipos(x), "bare send into the intake: when the subscription was cancelled (buffer goroutine gone) the frame executor blocks for ever")
 				}
 			case *ssa.Select:
 				for _, st := range x.States {
-					if st.Dir == types.SendOnly && isIntake(st.Chan) {
+					if st.Dir == types.SendOnly && isIntakeChan(st.Chan) {
 						n++
 						hasCtx := false
 						for _, s2 := range x.States {
@@ -408,6 +374,7 @@ func (c *Ctx) decouplingRule(rule string) {
 	if n == 0 {
 		c.und(rule, "hand-over into the intake", "-", "no send into the intake channel found")
 	}
+
 }
 
 // arrivalOrderRule: frames are executed strictly in arrival order. Decided on events, not on
@@ -544,30 +511,99 @@ func (c *Ctx) onlyUnderConnOnce(fn *ssa.Function, depth int) bool {
 	return n > 0
 }
 
-// bufferingGoroutine: the client function that multiplexes with reflect.Select and buffers in a container/list.
+// bufferingGoroutine: the entry of the client goroutine that multiplexes with reflect.Select and
+// buffers in a container/list: a function started with `go` whose call cone contains both (the
+// server-side forwarder also uses reflect.Select, but no list).
 func (c *Ctx) bufferingGoroutine() *ssa.Function {
-	var buf *ssa.Function
-	for _, fn := range c.P.Funcs {
-		if pkgOf(fn) != c.P.Root.Pkg {
-			continue
-		}
-		sel, lst := false, false
-		allInstrs(fn, func(in ssa.Instruction) {
+	if c.bufEntryDone {
+		return c.bufEntry
+	}
+	c.bufEntryDone = true
+	p := c.P
+	has := func(fn *ssa.Function) (sel, lst bool) {
+		p.coneInstrs(fn, func(in ssa.Instruction) {
 			if ci, ok := in.(*ssa.Call); ok {
 				n := calleeName(ci)
 				if n == "reflect.Select" {
 					sel = true
 				}
-				if len(n) > 22 && n[:22] == "(*container/list.List)" {
+				if strings.HasPrefix(n, "(*container/list.List)") {
 					lst = true
 				}
 			}
 		})
-		if sel && lst {
-			buf = fn
-		}
+		return
 	}
-	return buf
+	for _, fn := range p.Funcs {
+		if pkgOf(fn) != p.Root.Pkg {
+			continue
+		}
+		allInstrsRaw(fn, func(in ssa.Instruction) {
+			g, ok := in.(*ssa.Go)
+			if !ok {
+				return
+			}
+			tgt := p.unbound(staticCallee(g))
+			if tgt == nil || !p.allFns[tgt] {
+				return
+			}
+			if sel, lst := has(tgt); sel && lst {
+				c.bufEntry = tgt
+			}
+		})
+	}
+	return c.bufEntry
+}
+
+// bufFuncs: the functions making up the buffering goroutine (its entry, helpers, literals).
+func (c *Ctx) bufFuncs() []*ssa.Function {
+	e := c.bufferingGoroutine()
+	if e == nil {
+		return nil
+	}
+	return c.region(e)
+}
+
+func (c *Ctx) bufInstrs(f func(ssa.Instruction)) {
+	for _, g := range c.bufFuncs() {
+		allInstrsRaw(g, f)
+	}
+}
+
+// isIntakeChan: a channel of reflect.Value (the sink-to-buffer hand-over channel of a client stream).
+func isIntakeChan(v ssa.Value) bool {
+	ch, ok := v.Type().Underlying().(*types.Chan)
+	return ok && isNamed(ch.Elem(), "reflect", "Value")
+}
+
+// sinkFuncs: the functions that hand values over into an intake channel or close it (the sink
+// callback of a client stream, wherever it lives: closure, method, helper).
+func (c *Ctx) sinkFuncs() []*ssa.Function {
+	var out []*ssa.Function
+	seen := map[*ssa.Function]bool{}
+	for _, fn := range c.P.Funcs {
+		if pkgOf(fn) != c.P.Root.Pkg {
+			continue
+		}
+		allInstrsRaw(fn, func(in ssa.Instruction) {
+			hit := false
+			switch x := in.(type) {
+			case *ssa.Send:
+				hit = isIntakeChan(x.Chan)
+			case *ssa.Select:
+				for _, st := range x.States {
+					if st.Dir == types.SendOnly && isIntakeChan(st.Chan) {
+						hit = true
+					}
+				}
+			}
+			if hit && !seen[fn] {
+				seen[fn] = true
+				out = append(out, fn)
+			}
+		})
+	}
+	return out
 }
 
 // closeWhenDrained: lossless delivery needs that the buffering goroutine closes the caller's channel
@@ -581,7 +617,7 @@ func (c *Ctx) closeWhenDrained(rule string) {
 	}
 	// index of the context case in the case list literal
 	ctxIdx := int64(-1)
-	allInstrs(buf, func(in ssa.Instruction) {
+	c.bufInstrs(func(in ssa.Instruction) {
 		st, ok := in.(*ssa.Store)
 		if !ok {
 			return
@@ -605,7 +641,7 @@ func (c *Ctx) closeWhenDrained(rule string) {
 		}
 	})
 	var chosen ssa.Value
-	allInstrs(buf, func(in ssa.Instruction) {
+	c.bufInstrs(func(in ssa.Instruction) {
 		if ci, ok := in.(*ssa.Call); ok && calleeName(ci) == "reflect.Select" {
 			for _, ref := range *ci.Referrers() {
 				if ex, ok := ref.(*ssa.Extract); ok && ex.Index == 0 {
@@ -615,13 +651,13 @@ func (c *Ctx) closeWhenDrained(rule string) {
 		}
 	})
 	n := 0
-	allInstrs(buf, func(in ssa.Instruction) {
+	c.bufInstrs(func(in ssa.Instruction) {
 		ci, ok := in.(*ssa.Call)
 		if !ok || calleeName(ci) != "(reflect.Value).Close" {
 			return
 		}
 		n++
-		construct := fmt.Sprintf("%s: close of the caller's channel", fname(buf))
+		construct := fmt.Sprintf("%s: close of the caller's channel", fname(in.Parent()))
 		why := ""
 		for _, cf := range expandConds(impliedConds(in.Block())) {
 			bo, ok := cf.Cond.(*ssa.BinOp)
